@@ -714,8 +714,10 @@ class tensor:
             )
         rprod = 1 if rdims.size == 0 else np.prod(np.array(tshape)[rdims])
         cprod = 1 if cdims.size == 0 else np.prod(np.array(tshape)[cdims])
+        # transpose directly (not via permute, which copies) so that copy=False can
+        # still reference the tensor's data when no re-layout is needed
         data = np.reshape(
-            self.permute(dims).data,
+            to_memory_order(np.transpose(self.data, dims), self.order),
             (rprod, cprod),
             order=self.order,
         )
@@ -1283,9 +1285,9 @@ class tensor:
 
         # Np transpose does error checking on order, acts as permutation
 
-        return ttb.tensor(
-            to_memory_order(np.transpose(self.data, order), self.order), copy=False
-        )
+        # copy: np.transpose is a view and stays one when it is already F-contiguous
+        # (identity order, orders that only move singleton modes)
+        return ttb.tensor(np.transpose(self.data, order), copy=True)
 
     def reshape(self, shape: Shape) -> tensor:
         """
